@@ -31,7 +31,8 @@ P = {
         "dominance rule (index bounds), sibling agreement (one count, one decoder), pairing rule (cycle marks)",
         "Index >= len raises IndexError on every public index entry (decided completely); len/iter/"
         "solutions share one count; lazy and eager trees share one decoder; count and decode use the "
-        "same weights; cycle-mark add/remove pairing.  Duplicate-free packing is not decided.",
+        "same weights; cycle-mark add/remove pairing; links keyed injectively; a limited re-reduction repeats "
+        "no empty reduction (known finding D24).  Duplicate-free packing in general is not decided.",
         "Static; clauses named in DESIGN.",
         "DESIGN.md section 5 C03",
     ),
@@ -46,8 +47,9 @@ P = {
     "C05": (
         "def-use rule for FIRST, nullable-scan shape, fixpoint re-arm/monotonicity pairing rules, decision table",
         "FIRST never gets EMPTY from a non-nullable symbol; every fixpoint growth re-arms its loop; "
-        "lookahead sets only grow; each enqueue of an LR state has a novelty bound (known finding D3 "
-        "for the refused-merge append); no reduce entry dropped; no strategy => nothing removed.",
+        "lookahead sets only grow; a state is enqueued only after the search over all kernel-equal states failed, "
+        "takes a fresh id and is always enqueued when it becomes a target; FOLLOW under the re-pointed start "
+        "production; no reduce entry dropped; no strategy => nothing removed.",
         "Static; equality with canonical LR(1)/LALR(1) sets is not decided.",
         "DESIGN.md section 5 C05",
     ),
@@ -181,7 +183,9 @@ def main():
                     "replay_cmd_template": "/venv/bin/python pgv.py replay {path}",
                     "engine": "pgv",
                     "level_claimed": {"category": "other", "text": text, "design_ref": ref},
-                    "level_note": note,
+                    "level_note": note + " Besides the property's own rules the check runs the rule packs its statement "
+                    "rests on (pgv/rules/packs.py: table, scanner, LR/GLR driver, layout, actions, errors, imports, caches, "
+                    "reuse; listed with reasons in the evidence) and R00.debug-pure over the functions consulted.",
                     "technique": "static analysis: " + tech,
                 }
             )
